@@ -321,8 +321,8 @@ class ReceiveOnlyType(Serializable):
     Parameters for receive only collect type
     """
 
-    _fields = ('PosVelErr', 'ReceiveSensorType', 'AddedParameters')
-    _required = ('PosVelErr', 'ReceiveSensorType')
+    _fields = ('PosVelErr', 'ReceiveSensor', 'AddedParameters')
+    _required = ('PosVelErr', 'ReceiveSensor')
     _collections_tags = {'AddedParameters': {'array': False, 'child_tag': 'Parameter'}}
     # descriptors
     PosVelErr = SerializableDescriptor(
